@@ -1,7 +1,7 @@
 (* C13 property theorems: statements only, each closed by `exact`, with Print Assumptions.
    rouwenhorst/linspace are the NumQ instance of the generic model (the NumF instance of the same
    text is what the harness compares bit-exactly with NumPy). *)
-From Coq Require Import ZArith QArith Qabs List Bool Lqa.
+From Coq Require Import ZArith QArith Qabs List Bool Lqa Sorted.
 From QE Require Import Base.Num C16.Model C13.Model C13.Proofs.
 Import ListNotations.
 Open Scope Q_scope.
@@ -121,6 +121,28 @@ Theorem C13_estimate_mc_spec : forall X,
     ((0 < departures tr i)%nat -> sum_list (nth i P []) == 1).
 Proof. exact estimate_mc_spec. Qed.
 Print Assumptions C13_estimate_mc_spec.
+
+(* np.unique: states strictly increasing (lexicographic on rows; hence distinct), each one an observation,
+   and every observation equals some state *)
+Theorem C13_estimate_states_sorted : forall X,
+  StronglySorted (fun a b => lex_ltb a b = true) (unique_rows X) /\
+  (forall s, In s (unique_rows X) -> In s X) /\
+  (forall x, In x X -> existsb (lex_eqb x) (unique_rows X) = true).
+Proof. exact unique_rows_spec. Qed.
+Print Assumptions C13_estimate_states_sorted.
+
+Theorem C13_lex_order_strict : forall a b, lex_ltb a b = true -> lex_eqb a b = false.
+Proof. exact lex_ltb_not_eqb. Qed.
+Print Assumptions C13_lex_order_strict.
+
+(* fit_discrete_mc = estimate_mc of the nearest-grid-point indices (C16 model), states relabelled by the product grid *)
+Theorem C13_fit_is_estimate_of_nearest : forall orderF grids X,
+  let ind := map (fun x => cartesian_nearest_index orderF grids x) X in
+  let '(st, _, P) := estimate_mc (map (fun z => [inject_Z z]) ind) in
+  fit_discrete_mc orderF grids X =
+  (map (fun s => nth (Z.to_nat (Qnum (getQ s 0))) (cartesian 0 orderF grids) []) st, P).
+Proof. exact fit_is_estimate_of_nearest. Qed.
+Print Assumptions C13_fit_is_estimate_of_nearest.
 
 Example ex_estimate_mc :
   let '(states, idx, P) := estimate_mc [[3]; [1]; [3]; [3]; [1]] in
